@@ -291,7 +291,23 @@ class _Publish(Client):
             if not (isinstance(node.op, ast.Add) and const_value(node.value) == 1):
                 self.problems.append((node.lineno, "R6", f"contiguity cursor updated by `{src(node)}`: it may only advance by 1"))
         if kind == "store" and isinstance(node, ast.Attribute) and dotted(node) in ((sn, sf.cursor, "value"), (sn, sf.count, "value")):
-            self.problems.append((node.lineno, "R6", f"`{src(getattr(node, '_parent', node))}` overwrites a shared counter in the store path"))
+            # `n = self.<counter>.value + 1; self.<counter>.value = n` is the increment written the long way
+            val = assigned_value(node)
+            val = self._x(val, ctx) if val is not None else None
+            is_inc = isinstance(val, ast.BinOp) and isinstance(val.op, ast.Add) and \
+                ((dotted(val.left) == dotted(node) and const_value(val.right) == 1) or (dotted(val.right) == dotted(node) and const_value(val.left) == 1))
+            if is_inc and dotted(node) == (sn, sf.count, "value"):
+                self._need_free("the counter update", node, dup)
+                return ((tell, w, fl, pub, dup, min(2, cnt + 1)),)
+            if is_inc:
+                self._need_free("the contiguity cursor update", node, dup)
+                return (state,)
+            if val is not None and const_value(val, "x") != "x":
+                self.problems.append((node.lineno, "R6", f"`{src(getattr(node, '_parent', node))}` overwrites a shared counter with a constant in the store path"))
+            else:
+                # a computed value (e.g. the position a local search arrived at): whether it equals the stepwise advance is a
+                # value-level question
+                self.problems.append((node.lineno, "R6?", f"`{src(getattr(node, '_parent', node))}` assigns a computed value to a shared counter"))
         if kind == "raise" and dup == "dup":
             x = node.exc.func if isinstance(node.exc, ast.Call) else node.exc
             if x is None or src(x) != "ValueError":
@@ -332,6 +348,10 @@ def r2_r3_r6(prog, rep: Report, sf: StorageFacts):
                                                            "check leaves a second line, a moved counter or a replaced entry behind"),
                              ("C14.R6", "stored-counter", "len(storage) differs from the number of stored ids")):
         mine = [p for p in probs if p[1] == rule[-2:]]
+        maybe = [p for p in probs if p[1] == rule[-2:] + "?"]
+        if not mine and maybe:
+            rep.unrec(rule, f, role, "; ".join(m for _, _, m in maybe), maybe[0][0])
+            continue
         rep.check(rule, f, role, not mine, "holds on every path of __setitem__ (helpers inlined)",
                   "; ".join(m for _, _, m in mine), scenario=scen, line=mine[0][0] if mine else None)
     # cursor advance loop guarded by "entry at cursor is not None"
@@ -348,9 +368,21 @@ def r2_r3_r6(prog, rep: Report, sf: StorageFacts):
                     and dotted(sub.left.value) == (f.self_name, sf.index) \
                     and dotted(sub.left.slice) == (f.self_name, sf.cursor, "value"):
                 good = True
-    rep.check("C14.R6", f, "cursor-advance", good, "the cursor advances only while index[cursor] is not None",
-              "no loop advancing the contiguity cursor under the guard `index[cursor] is not None`",
-              scenario="ids stored as 1, 0: is_contiguous() stays False (cursor stuck at 1) or runs past a gap")
+    writes_cursor = any(isinstance(n, (ast.Assign, ast.AugAssign)) and any(dotted(t) == (fv.self_name, sf.cursor, "value")
+                                                                      for t in (n.targets if isinstance(n, ast.Assign) else [n.target]))
+                        for n in walk_own(fv.node))
+    guarded_scan = any(isinstance(sub, ast.Compare) and len(sub.ops) == 1 and isinstance(sub.ops[0], (ast.IsNot, ast.Is))
+                       and const_value(sub.comparators[0], 0) is None and isinstance(sub.left, ast.Subscript)
+                       and dotted(sub.left.value) == (fv.self_name, sf.index) for lp in loops for sub in ast.walk(lp.test))
+    if not good and writes_cursor and guarded_scan:
+        # the cursor is written, and some loop scans the index for the first empty entry, but not in the recognised form (the
+        # scan may run on a local that is published once at the end)
+        rep.unrec("C14.R6", f, "cursor-advance", "the contiguity cursor is advanced by a scan over the index that is not the recognised "
+                  "`while index[cursor] is not None: cursor += 1`")
+    else:
+        rep.check("C14.R6", f, "cursor-advance", good, "the cursor advances only while index[cursor] is not None",
+                  "no loop advancing the contiguity cursor under the guard `index[cursor] is not None`",
+                  scenario="ids stored as 1, 0: is_contiguous() stays False (cursor stuck at 1) or runs past a gap")
 
 
 # ---------------------------------------------------------------------------------------------- R4
@@ -478,8 +510,16 @@ def r5_reset(prog, rep: Report, sf: StorageFacts):
     def walked(e):
         """the container a loop walks, through a named snapshot / copy (`ps = list(self._paths); for p in ps`)"""
         e = fflow.expand(e) if isinstance(e, ast.Name) else e
-        while isinstance(e, ast.Call) and src(e.func) in ("list", "tuple", "sorted") and len(e.args) == 1:
-            e = fflow.expand(e.args[0]) if isinstance(e.args[0], ast.Name) else e.args[0]
+        while True:
+            if isinstance(e, ast.Call) and src(e.func) in ("list", "tuple", "sorted") and len(e.args) == 1:
+                e = fflow.expand(e.args[0]) if isinstance(e.args[0], ast.Name) else e.args[0]
+            elif isinstance(e, ast.Subscript) and isinstance(e.slice, ast.Slice) and e.slice.lower is None and e.slice.upper is None \
+                    and e.slice.step is None:
+                e = e.value                       # X[:]
+            elif isinstance(e, ast.Call) and isinstance(e.func, ast.Attribute) and e.func.attr == "copy" and not e.args:
+                e = e.func.value
+            else:
+                break
         return dotted(e)
     for n in walk_own(f.node):
         if isinstance(n, ast.For) and walked(n.iter) and walked(n.iter)[-1] in paths and isinstance(n.target, ast.Name):
@@ -677,55 +717,65 @@ def r7_reader(prog, rep: Report, sf: StorageFacts):
             rep.ok("C14.R7", f, role, okmsg)
 
 
-class _OpenModes(Client):
-    """state = was the writer already registered (process identifier known) when open() was entered?: None | True | False"""
-
-    def __init__(self, sf: StorageFacts, idf: str):
-        self.sf, self.idf = sf, idf
-        self.opens: List[Tuple[int, str, object]] = []
-
-    def should_inline(self, func, call, ctx):
-        return func.cls is self.sf.cls
-
-    def refine(self, test, state, ctx):
-        if isinstance(test, ast.Compare) and len(test.ops) == 1 and dotted(test.left) == (ctx.func.self_name, self.idf) \
-                and const_value(test.comparators[0], 0) is None:
-            if isinstance(test.ops[0], ast.Is):
-                return (False,), (True,)
-            if isinstance(test.ops[0], ast.IsNot):
-                return (True,), (False,)
-        return (state,), (state,)
-
-    def event(self, kind, node, state, ctx):
-        if kind == "call" and isinstance(node, ast.Call) and self.sf.P.external_name(ctx.func.mod, node.func) == "open":
-            from ..util import open_mode
-            self.opens.append((node.lineno, open_mode(node), state))
-        return (state,)
-
-
 def r8_reopen_appends(prog, rep: Report, sf: StorageFacts):
     rep.rule("C14.R8", "a writer that re-opens its file appends: in open(), every open() call reached while the writer is already "
              "registered (its process identifier is known) uses mode 'a'; only the first registration may create the file", floor=1)
-    f = prog.method(sf.cls, "open")
+    f = prog.method_raw(sf.cls, "open")
     rep.fn(f)
     idf = identifier_field(sf)
     if idf is None:
         rep.unrec("C14.R8", f, "reopen-appends", "the writer's identifier field is not recognisable in open()")
         return
-    client = _OpenModes(sf, idf)
-    it = Interp(prog, client)
-    it.run(f, {None}, sf.cls)
-    if not client.opens:
+    # per world (writer registered already / not yet) the mode every open() call is made with, read off the path summaries: the
+    # mode may be chosen in a branch and handed on through a local
+    from ..paths import strip_versions, summaries
+
+    def assume_for(registered):
+        def a(term):
+            t, neg = term, False
+            while isinstance(t, tuple) and t and t[0] == "not":
+                t, neg = t[1], not neg
+            t = strip_versions(t)
+            if isinstance(t, tuple) and t[0] == "cmp" and t[1] in ("Is", "IsNot") and t[3] == ("c", None) and t[2][:3] == ("attr", ("self",), idf):
+                r = (not registered) if t[1] == "Is" else registered
+                return r != neg
+            return None
+        return a
+    modes = {True: [], False: []}
+    unrec = []
+    for registered in (True, False):
+        ps, un = summaries(prog, f, sf.cls, assume=assume_for(registered))
+        unrec += un
+        for p_ in ps:
+            for e in p_.events:
+                if e[0] == "call" and e[1] == "open":
+                    args = e[3]
+                    m = None
+                    pos = [a for a in args if not (isinstance(a, tuple) and len(a) == 2 and isinstance(a[0], str) and a[0] not in ("c", "p"))]
+                    kw = {a[0]: a[1] for a in args if isinstance(a, tuple) and len(a) == 2 and isinstance(a[0], str) and a[0] not in ("c", "p")}
+                    mt = kw.get("mode", pos[1] if len(pos) > 1 else ("c", "r"))
+                    m = mt[1] if isinstance(mt, tuple) and mt[0] == "c" else None
+                    modes[registered].append((e[4], m))
+    if unrec:
+        rep.unrec("C14.R8", f, "reopen-appends", "; ".join(unrec))
+        return
+    if not modes[True] and not modes[False]:
         rep.unrec("C14.R8", f, "reopen-appends", "open() opens no file")
         return
-    bad = [(ln, m) for ln, m, st in client.opens if st is not False and (m is None or "a" not in m)]
-    first = [(ln, m) for ln, m, st in client.opens if st is False]
-    rep.check("C14.R8", f, "reopen-appends", not bad and bool(first),
-              f"first registration creates the file ({[m for _, m in first]}), a registered writer re-opens it in append mode",
-              f"an open() call reachable for an already registered writer uses mode {[m for _, m in bad]}: re-opening truncates the "
-              f"writer's file while the index still points into it",
-              scenario="store ids 0-2, close(), open(), store ids 3-4: id 0 reads 'three', iteration is wrong",
-              line=bad[0][0] if bad else None)
+    unknown = [(ln, m) for ln, m in modes[True] if m is None]
+    bad = [(ln, m) for ln, m in modes[True] if m is not None and "a" not in m]
+    first = modes[False]
+    if bad or not first:
+        rep.viol("C14.R8", f, "reopen-appends",
+                 (f"an open() call reachable for an already registered writer uses mode {[m for _, m in bad]}: re-opening truncates the "
+                  f"writer's file while the index still points into it") if bad else "no open() for a writer that is not registered yet",
+                 scenario="store ids 0-2, close(), open(), store ids 3-4: id 0 reads 'three', iteration is wrong",
+                 line=bad[0][0] if bad else None)
+    elif unknown:
+        rep.unrec("C14.R8", f, "reopen-appends", "the mode of an open() call reached by a registered writer is not a constant on that path")
+    else:
+        rep.ok("C14.R8", f, "reopen-appends", f"first registration creates the file ({sorted({m for _, m in first})}), a registered writer "
+               "re-opens it in append mode")
 
 
 def run(prog: Program, rep: Report):
